@@ -62,6 +62,21 @@ def main():
   mine = [p for j, p in enumerate(pairs) if j % nshards == shard]
   qt = [qf.make_quantizer(qkeras_quantizer(o)) for o in ops]
   ns = [1, 2, 3, 4, 5, 7, 8, 9, 16, 17, 27, 31, 32, 64, 100, 1024, 1025, 4096, 4097]
+  # floating-point operands (fp16 / fp32) against every operand type and against each other: the product of a float
+  # and anything is a float at least as wide as the widest float operand, implemented as a multiplier
+  if shard == 0:
+    floats = {16: lambda: qf.make_default_quantizer("fp16"), 32: lambda: qf.make_default_quantizer("fp32")}
+    combos = [(wb, xb, None) for wb in (16, 32) for xb in (16, 32)]
+    combos += [(fb, 0, j) for fb in (16, 32) for j in range(len(ops))] + [(0, fb, j) for fb in (16, 32) for j in range(len(ops))]
+    for wb, xb, j in combos:
+      try:
+        qw = floats[wb]() if wb else qt[j]
+        qx = floats[xb]() if xb else qt[j]
+        m = mf.make_multiplier(qw, qx)
+        events.append({"op": "fmul", "wf": wb, "xf": xb, "outf": int(bool(m.output.is_floating_point)), "outbits": int(m.output.bits),
+                       "kind": m.implemented_as()})
+      except Exception as e:
+        errors.append({"k": "exc", "op": "fmul", "w": {"src": "fp%d" % wb}, "x": {"src": "fp%d" % xb}, "exc": repr(e)[:200]})
   prev = None
   for (a, b) in mine:
     w, x = ops[a], ops[b]
